@@ -13,6 +13,9 @@ TABLE = {
  "C01": (True, "runtime monitoring: every released signature checked by the library's three verification entry points over lifetime walks and boundary counters",
          "oracle = the library's own verifier through all three entry points, observed on every signature released by a workload of 6 hashes x W x H2/H5/H10 x 1..8 levels at boundary counters (around every subtree roll-over) and on complete lifetime walks through the real callback chain alternating sign / try_sign / try_sign_with_aux; a run that did not cross a roll-over of each upper level per hash is inconclusive",
          TRUST, "DESIGN.md 5 (C01)"),
+ "C02": (True, "runtime differential monitoring of the verifier against an independent RFC 8554 verifier over structure-aware mutations",
+         "a pool of valid triples (library-, model- (random C) and hash-sigs-tool-signed; 6 hashes; 1..8 levels) is mutated field by field using the model's parser (every field class x alterations, every type code, q boundaries, re-cut lengths, level-count and chain manipulations, splices across levels/keys/hashes, truncation/extension, every byte of the smallest signatures, noise); every mutated triple is judged by the library (three entry points) and by the independent verifier, disagreement in either direction is a violation; the hash-sigs tool gives a third opinion on a sample",
+         TRUST, "DESIGN.md 5 (C02)"),
  "C03": (True, "offline checking of recorded signing histories (ghost state over released signatures and persisted keys)",
          "seeded generator plays complete-lifetime histories (sign, refused sign, crashing callback, reload, entry-point switches, own/foreign/fresh aux) always continuing from the last persisted key; the history recorded at the API boundary is checked by an OTS ghost map keyed on public material (level, I, q), by the mixed-radix digit rule for the n-th released signature and by the counter+1 rule for persisted keys; the count of distinct one-time keys over a lifetime must equal the number of (tree, leaf) pairs",
          TRUST, "DESIGN.md 5 (C03)"),
@@ -22,6 +25,9 @@ TABLE = {
  "C04": (True, "fault enumeration with a recording, scripted update callback",
          "the grid state x callback outcome x aux variant x entry point is finite for small keys and is enumerated completely (every counter of the lifetime of [H2],[H2,H2],[H2,H2,H2],[H5] under all 6 hashes, every failing precondition); the callback recorder decides: count, argument = model successor, no release after refusal, no invocation when nothing can be signed",
          TRUST, "DESIGN.md 5 (C04)"),
+ "C06": (True, "panic/termination monitor (catch_unwind + panic hook with location) over exhaustive and structure-aware hostile inputs",
+         "every input of the C02 mutation set plus, per (hash, key shape), every prefix length, all 256 values of every byte of every header/type/level field, level counts with well-formed filler so that parsing proceeds, and raw noise is pushed through all three verification entry points and the byte-level constructors; a panic of any kind (the library is built with overflow checks) is a violation, keyed by panic site, entry point and input class",
+         TRUST + "; termination is bounded by parsed lengths, longest call reported; a global watchdog firing is inconclusive", "DESIGN.md 5 (C06)"),
  "C07": (True, "runtime differential monitoring: byte comparison with an independently written RFC 8554 signer + independent verifier + reference tool",
          "every signature released on the C01 grid is compared byte for byte with the model signer run on the same key bytes and message (first differing field named), checked against the RFC length formula, verified by the model and (SHA-256/32) the hash-sigs tool; strict Appendix-B parameters are applied separately so that the recorded ls deviation (known finding) stays visible without masking anything else",
          TRUST + "; the upper-level randomizer rule and the 55-byte PRNG block for n<32 are pinned to the tree under test", "DESIGN.md 5 (C07)"),
